@@ -228,7 +228,11 @@ func (P *Program) Check(opt CheckOpts) int {
 		}
 		depRound = true
 	}
-	work := filepath.Join(opt.VerifDir, "work", prop+"_"+opt.Tier)
+	sweepStale(filepath.Join(opt.VerifDir, "work"))
+	sweepStale(filepath.Join(opt.VerifDir, "replay", "scratch"))
+	// one scratch directory per process: checks of the same property may run side by side (quick and thorough,
+	// canaries on scratch copies)
+	work := filepath.Join(opt.VerifDir, "work", fmt.Sprintf("%s_%s_%d", prop, opt.Tier, os.Getpid()))
 	os.RemoveAll(work)
 	want := func(o *Obligation) bool { return true }
 	// select this property's obligations
@@ -255,7 +259,12 @@ func (P *Program) Check(opt CheckOpts) int {
 	assumed := map[string]bool{}
 	var violations []string
 	knownLines := []string{}
-	replayDir := filepath.Join(opt.VerifDir, "replay", prop)
+	// replay files live per property and tier; runs that do not write evidence (must-fail runs, canaries on
+	// scratch copies) keep theirs apart so that they never disturb the files a registered check reported
+	replayDir := filepath.Join(opt.VerifDir, "replay", prop, opt.Tier)
+	if opt.NoEvidence || opt.Deps {
+		replayDir = filepath.Join(opt.VerifDir, "replay", "scratch", fmt.Sprintf("%s_%d", prop, os.Getpid()))
+	}
 	os.RemoveAll(replayDir)
 	covers := 0
 	seenKnown := map[string]bool{}
@@ -363,6 +372,17 @@ func (P *Program) Check(opt CheckOpts) int {
 	}
 	sort.Strings(assumptions)
 	assumptions = append(assumptions, P.PropertyAssumptions(prop)...)
+	P.renMu.Lock()
+	var rens []string
+	for k := range P.Renames {
+		rens = append(rens, k)
+	}
+	P.renMu.Unlock()
+	sort.Strings(rens)
+	for _, k := range rens {
+		fmt.Printf("RENAMED %s (a contract names a variable the function no longer has; read as the variable now at its recorded position, engine/externals/locals.json)\n", k)
+		assumptions = append(assumptions, "variable renamed since the contract was written, clause read positionally: "+k)
+	}
 	level := "proof"
 	expl := ""
 	if len(knownLines) > 0 || len(violations) > 0 || discharged != total {
@@ -421,6 +441,28 @@ func (P *Program) Check(opt CheckOpts) int {
 		return 1
 	}
 	return 0
+}
+
+// sweepStale removes the per-process directories "<name>_<pid>" in dir whose process is gone.
+func sweepStale(dir string) {
+	ents, err := os.ReadDir(dir)
+	if err != nil {
+		return
+	}
+	for _, e := range ents {
+		n := e.Name()
+		i := strings.LastIndex(n, "_")
+		if !e.IsDir() || i < 0 {
+			continue
+		}
+		pid := n[i+1:]
+		if pid == "" || strings.Trim(pid, "0123456789") != "" {
+			continue
+		}
+		if _, err := os.Stat("/proc/" + pid); err != nil {
+			os.RemoveAll(filepath.Join(dir, n))
+		}
+	}
 }
 
 func round3(f float64) float64 { return float64(int64(f*1000+0.5)) / 1000 }
